@@ -12,7 +12,7 @@
 //!   xq only: exp=<code points of the expected stdout computed from the library>
 //!
 //! dump:  (doc (C*))  (e NAME (A*) (C*))  (a NAME VALUE)  (t STR)  (c STR)  (p TARGET DATA)
-//!        (r NAME)  (d STR)  -- NAME/STR as code points; attributes sorted by name.
+//!        (r NAME)  (d STR)  -- NAME/STR as code points; attributes sorted by name, specified ones only.
 use crate::util::{dec, enc};
 use std::io::Write;
 use std::process::{Command, Stdio};
@@ -34,6 +34,10 @@ fn dump(n: &XmlNode, sel: &[usize], out: &mut String) {
                 let mut v: Vec<_> = attrs.iter().collect();
                 v.sort_by_key(|a| a.name());
                 for a in v {
+                    // attributes supplied by the DTD are not part of what the tool wrote or must keep
+                    if !a.specified() {
+                        continue;
+                    }
                     let astar = if sel.contains(&XmlNode::Attribute(a.clone()).id()) { "*" } else { "" };
                     out.push_str(&format!(
                         "(a{} {} {})",
